@@ -435,6 +435,22 @@ def specs(draw, sharing=None, builders=None, max_len=48, long_prob=0.1, neg_stor
         objs[u_] = {"cls": "UsagePattern", "usage_journey": up_journey[u_], "devices": dv, "network": n,
                     "country": c, "start": draw(start_dates()),
                     "starts": draw(series(max_len=max_len, long_prob=long_prob))}
+        prev = [x for x in up_names if x in objs and x != u_]
+        if prev and draw(st.floats(0, 1)) < 0.2:
+            # near twins: same zone, same number of hours, start a few hours (often the same day) apart -- whatever is
+            # shared or remembered between two time lines must not confuse them
+            tw = objs[draw(st.sampled_from(prev))]
+            t0 = datetime(*tw["start"])
+            t1 = t0.replace(hour=draw(st.integers(0, 23))) if draw(st.booleans()) else \
+                t0 + timedelta(hours=draw(st.integers(-30, 30)))
+            objs[u_]["start"] = [t1.year, t1.month, t1.day, t1.hour]
+            k_ = len(tw["starts"])
+            vals = draw(st.lists(eighths(), min_size=k_, max_size=k_))
+            if all(v == 0 for v in vals):
+                vals[0] = 2.0
+            objs[u_]["starts"] = vals
+            if c != tw["country"]:
+                objs[c]["timezone"] = objs[tw["country"]]["timezone"]
     # display names are chosen by users and may collide (two jobs called "upload"): now and then two objects of one class
     # get the same display name (spec keys stay unique and are what the harness joins on)
     if draw(st.floats(0, 1)) < same_names:
